@@ -50,6 +50,7 @@ bool search_image(const ref::TA& A, const ref::TA& R)
 void harness::run_case(const eng::Raw& raw, eng::Ctx& ctx)
 {
 	gen::Limits lim;
+	lim.overload = true;
 	lim.maxStates = ctx.tier() ? 5 : 4;
 	lim.arity3 = true;
 	gen::TACase c = gen::decode_ta(raw, lim, false);
